@@ -349,7 +349,9 @@ def run(req, boot):
     for cls in (L.Dimension, L.Prefix, L.Unit, L.Logarithm, L.LogarithmicUnit):
         sched.new_codes[cls.__new__.__code__] = cls.__name__
     ev = Evaluator(L, model)
-    sizes_before = {c.__name__: len(c._known) for c in (L.Dimension, L.Prefix, L.Unit, L.Logarithm, L.LogarithmicUnit)}
+    CLASSES = (L.Dimension, L.Prefix, L.Unit, L.Logarithm, L.LogarithmicUnit)
+    sizes_before = {c.__name__: len(c._known) for c in CLASSES}
+    ids_before = {c.__name__: {id(v) for v in c._known.values()} for c in CLASSES}
     simlock.ACTIVE.sched = sched
     try:
         for i, prog in enumerate(program["threads"]):
@@ -365,6 +367,8 @@ def run(req, boot):
     def count(k, n=1):
         counters[k] = counters.get(k, 0) + n
 
+    # registry growth during the concurrent phase (measured before anything is evaluated again)
+    grew = {c.__name__: len(c._known) - sizes_before[c.__name__] for c in CLASSES}
     if sched.deadlock:
         violations.append({"clause": "C20.progress", "signature": "C20/deadlock",
                            "step": sched.steps, "detail": {"points": [t.last_point for t in sched.threads]}})
@@ -457,12 +461,20 @@ def run(req, boot):
                         violations.append({"clause": "C20.initialised",
                                            "signature": "C20/half-initialised/" + k[0],
                                            "step": sched.steps, "detail": {"key": canon(k), "slot": "_initialized"}})
-        # oracle 4: table growth equals the number of distinct new keys per class
-        grew = {c.__name__: len(c._known) - sizes_before[c.__name__]
-                for c in (L.Dimension, L.Prefix, L.Unit, L.Logarithm, L.LogarithmicUnit)}
+        # oracle 4: "the registry ends with a single entry for it": each intern table grew by exactly
+        # the number of distinct new structural keys its constructor handed out
+        new_keys = {c.__name__: set() for c in CLASSES}
+        for k in order:
+            if any(id(o) not in ids_before[k[0]] for o in by_key[k]):
+                new_keys[k[0]].add(k)
+        for cname, g in grew.items():
+            count("C20.table-count.checked")
+            if g != len(new_keys[cname]):
+                violations.append({"clause": "C20.table", "signature": "C20/table-count/" + cname,
+                                   "step": sched.steps,
+                                   "detail": {"table_grew_by": g, "distinct_new_keys": len(new_keys[cname])}})
         count("table_growth_total", sum(grew.values()))
 
-    fresh = sum(1 for k in order if True)
     log.append({"decisions": "".join(str(x) for x in sched.decisions)})
     for t in sched.threads:
         log.append({"t": t.index, "results": [
